@@ -24,7 +24,7 @@ ASSUMPTIONS = [
     "tolerance 1e-8 rad (the statement's rounding/pole-snap tolerance); within 2e-4 rad of a pole (the library's documented 1e-8-in-z snap zone) only the latitude is compared, and generators place no point strictly inside that zone",
     "I2 is evaluated only where at least one of the two representations was derived by the library (a source that ships both is responsible for their agreement)",
     "edge order is read from the grid's own edge_node_connectivity (edge construction is C02's business)",
-    "after normalize_cartesian_coordinates() every Cartesian coordinate present must have unit length (the meaning of 'normalising') and unchanged direction",
+    "after normalize_cartesian_coordinates() every Cartesian coordinate present must have unit length to 2e-5 (the library regards lengths within 1e-5 relative of 1 as already normalised; the statement fixes no precision) and unchanged direction",
 ]
 COMPONENTS = {
     "real": ["uxarray coordinate population (_populate_node_latlon/_populate_node_xyz/_populate_face_centroids/_populate_edge_centroids), longitude range handling, normalize_cartesian_coordinates, and every public call used as an indirect access (bounds, trees, subset, distances, dual, areas, exodus encoder)"],
@@ -101,7 +101,7 @@ def gen_source(rng):
             extra.append("edge_lonlat")
         if e in ("xyz", "both"):
             extra.append("edge_xyz")
-        spec["dialect"] = {"lon360": rng.random() < 0.4, "extra": extra, "xyz_scale": rng.choice([1.0, 1.0, 2.0, 6371.0, 0.5])}
+        spec["dialect"] = {"lon360": rng.random() < 0.4, "extra": extra, "xyz_scale": rng.choice([1.0, 1.0, 2.0, 6371.0, 0.5, 1.000003, 0.999996])}
     elif r < 0.9:
         spec["prov"] = rng.choice(["vertices", "vertices_xyz", "vertices_xyz"])
     else:
@@ -286,7 +286,9 @@ class Coords(Profile):
                 ln = np.linalg.norm(v, axis=-1)
                 if not shipped_xyz or W.normalized:
                     # I3 derived (or normalised) Cartesian coordinates have unit length
-                    if ln.size and np.max(np.abs(ln - 1.0)) > LEN and not (shipped_xyz and not W.normalized):
+                    # supplied coordinates that normalize_cartesian_coordinates() regards as already
+                    # normalised (its own closeness test, 1e-5 relative) may keep their length
+                    if ln.size and np.max(np.abs(ln - 1.0)) > (2e-5 if shipped_xyz else LEN) and not (shipped_xyz and not W.normalized):
                         what = "derived" if not shipped_xyz else "normalised"
                         return [V(f"C04/{kind}/{what}-xyz-not-unit", i, f"{what} {kind}_x/y/z have length in [{ln.min():.12g}, {ln.max():.12g}] after {ctx} (shipped lon/lat={shipped_ll})")]
                 if shipped_xyz:
@@ -347,7 +349,7 @@ class Coords(Profile):
                 return [V(f"C04/normalize/{k}-direction-changed", i, f"normalize_cartesian_coordinates changed the direction of {k} xyz by {d.max():.3g} rad")]
             ln = np.linalg.norm(v, axis=-1)
             f32 = any(str(g._ds[f"{k}_{c}"].dtype) == "float32" for c in "xyz")
-            if ln.size and np.max(np.abs(ln - 1.0)) > (1e-6 if f32 else 1e-12):
+            if ln.size and np.max(np.abs(ln - 1.0)) > 2e-5:
                 return [V(f"C04/normalize/{k}-not-unit", i, f"after normalize_cartesian_coordinates {k}_x/y/z have length in [{ln.min():.9g}, {ln.max():.9g}]")]
         return []
 
